@@ -320,6 +320,20 @@ pub mod onion {
 		)
 	}
 
+	/// What `ChannelManager` makes of an incoming HTLC that is to be FORWARDED (incl. Trampoline forwards, which the public
+	/// `peel_payment_onion` does not handle): `decode_incoming_update_add_htlc_onion` followed by
+	/// `create_fwd_pending_htlc_info` with the decoded hop, its shared secret and the next packet key. Read-only.
+	pub fn fwd_info<NS: crate::sign::NodeSigner, L: Logger, T: secp256k1::Verification>(
+		msg: &crate::ln::msgs::UpdateAddHTLC, node_signer: NS, logger: L, secp_ctx: &Secp256k1<T>,
+	) -> Result<crate::ln::channelmanager::PendingHTLCInfo, alloc::string::String> {
+		use crate::ln::onion_payment::{create_fwd_pending_htlc_info, decode_incoming_update_add_htlc_onion};
+		let (hop, details) = decode_incoming_update_add_htlc_onion(msg, node_signer, logger, secp_ctx)
+			.map_err(|(_, reason)| alloc::format!("decode: {:?}", reason))?;
+		let shared_secret = hop.shared_secret().secret_bytes();
+		create_fwd_pending_htlc_info(msg, hop, shared_secret, details.map(|d| d.next_packet_pubkey))
+			.map_err(|e| alloc::format!("{:?} ({})", e.reason, e.msg))
+	}
+
 	/// Serialized hop payloads, first-hop amount and cltv of `build_onion_payloads`.
 	pub fn payloads(
 		path: &Path, recipient_onion: &RecipientOnionFields, cur_block_height: u32,
